@@ -961,6 +961,9 @@ def _c03_scenarios(quick, seed):
     # failures at any stage, with a signal in flight
     for k in ([0, 3, 40, 80] if quick else list(range(0, 93, 4))):
         scns.append(mk(f"destfail/{k}", [{"at": {"hook": "suspended"}, "do": "signal", "sig": "rt", "to_slot": 1}], faults={"dest_fail_at": k}, expect={"outcome": "err"}))
+    # the caller's destination PANICS at some call: the dump unwinds (no value is returned), the target must be released all the same
+    for k in ([0, 3, 40] if quick else list(range(0, 93, 6))):
+        scns.append(mk(f"unwind/destination-panics@{k}", [{"at": {"hook": "suspended"}, "do": "signal", "sig": "rt", "to_slot": 0}], faults={"dest_panic_at": k}, expect={"outcome": "panic"}))
     scns.append(mk("hard/app-memory", [{"at": {"hook": "attach:ok", "slot": 1}, "do": "signal", "sig": "rt", "to_slot": 1}],
                    writer={"blamed": "main", "app_memory": [{"addr": "0x10", "len": 64}]}, expect={"outcome": "err"}))
     scns.append(mk("hard/blamed-absent", [{"at": {"hook": "suspended"}, "do": "signal", "sig": "rt", "to_slot": 0}], writer={"blamed": "absent"}, expect={"outcome": "err"}))
